@@ -50,6 +50,7 @@ CondSeq(seq, d) == [i \in 1..Len(seq) |-> [seq[i] EXCEPT !.c = And(@, d)]]
 MkSym(e, dep, vis, ch) ==
   LET d == And(e.dep, dep) IN
   [kind |-> "sym", name |-> e.name, type |-> e.type, dep |-> d, ch |-> ch,
+   ctx |-> IF e.prompt = <<>> THEN <<>> ELSE <<And(vis, d)>>,     \* what must hold for the prompt to exist at all
    prompts  |-> IF e.prompt = <<>> THEN <<>> ELSE <<And(e.prompt[1], And(vis, d))>>,
    defaults |-> CondSeq(e.defaults, d), ranges |-> CondSeq(e.ranges, d),
    selects  |-> CondSeq(e.selects, d),  implies |-> CondSeq(e.implies, d),
@@ -111,6 +112,7 @@ Index(D) ==
             LET defs == SymDefs(D, n) IN
             [type |-> defs[1].type, ch |-> defs[1].ch,
              prompts |-> Prompts(defs), deps |-> [k \in 1..Len(defs) |-> defs[k].dep],
+             ctx |-> Concat([k \in 1..Len(defs) |-> defs[k].ctx]),
              defaults |-> Defaults(defs), ranges |-> Ranges(defs),
              selects |-> RevOf(D, n, "selects"), implies |-> RevOf(D, n, "implies"),
              sets |-> RevOf(D, n, "sets"), wsets |-> RevOf(D, n, "wsets")]],
@@ -141,8 +143,10 @@ DefinedX(X, n) == n \in DOMAIN X.s
 TypeX(X, n) == IF DefinedX(X, n) THEN X.s[n].type ELSE "unknown"
 
 \* the text an atom stands for: an option's value, an undefined name itself, a literal
-AtomStr(X, A, a) == IF a[1] = "s" THEN (IF DefinedX(X, a[2]) THEN A.core[a[2]].val ELSE a[2]) ELSE a[2]
-AtomType(X, a) == IF a[1] = "s" THEN TypeX(X, a[2]) ELSE "unknown"
+\* (the constants y / n may also stand as operands, e.g. after folding: they are bools)
+AtomStr(X, A, a) == IF a[1] = "s" THEN (IF DefinedX(X, a[2]) THEN A.core[a[2]].val ELSE a[2])
+                    ELSE IF a[1] \in {"y", "n"} THEN a[1] ELSE a[2]
+AtomType(X, a) == IF a[1] = "s" THEN TypeX(X, a[2]) ELSE IF a[1] \in {"y", "n"} THEN "bool" ELSE "unknown"
 
 \* an atom as a number, <<ok, n>>: bool n/y count as 0/2; int/hex options in their base;
 \* strings, constants and undefined names by their literal form
